@@ -60,15 +60,35 @@ func RecvFilterList(c *rsyncwire.Conn) (*filterRuleList, error) {
 		if _, err := io.ReadFull(c.Reader, line); err != nil {
 			return nil, err
 		}
-		fr, err := parseFilter(string(line))
-		if err != nil {
+		if err := l.addLine(string(line)); err != nil {
 			return nil, err
 		}
-		l.addRule(fr)
-		if fr.flag&filtruleWild != 0 {
-			// Report an error to the peer instead of panicking
-			// once the rule is matched against a file name.
-			return nil, fmt.Errorf("wildcard filter rules not yet implemented: %q", line)
+	}
+	return &l, nil
+}
+
+func (l *filterRuleList) addLine(line string) error {
+	fr, err := parseFilter(line)
+	if err != nil {
+		return err
+	}
+	l.addRule(fr)
+	if fr.flag&filtruleWild != 0 {
+		// Report an error instead of panicking
+		// once the rule is matched against a file name.
+		return fmt.Errorf("wildcard filter rules not yet implemented: %q", line)
+	}
+	return nil
+}
+
+// NewFilterRuleList parses filter rules in the format in which they are
+// transmitted (e.g. "- name" for --exclude=name), for a sender that applies
+// the rules of its own command line.
+func NewFilterRuleList(rules []string) (*filterRuleList, error) {
+	var l filterRuleList
+	for _, line := range rules {
+		if err := l.addLine(line); err != nil {
+			return nil, err
 		}
 	}
 	return &l, nil
